@@ -74,9 +74,10 @@ def string_generator(skip: Optional[Union[List, Set]] = None) \
 
         # generate labels with current length
         for c in itertools.product(ascii_uppercase, repeat=r):
-            if c in skip:
+            label = ''.join(c)
+            if label in skip:
                 continue
-            yield ''.join(c)
+            yield label
 
         # increment label length when all possibilities are exhausted
         r = r + 1
